@@ -16,6 +16,7 @@ from .model import (
     prefix_kept, qarr, qh, qt, queue_items_valid, rtc, wf_class, wf_registry, wf_world, valid_obj, smap_has,
 )
 from .engines import ProcessingLoop, is_exception, queue_effect, td_valid
+from .callbacks import none_swallowed
 
 EVQ = "statemachine.event:"
 
@@ -233,7 +234,7 @@ class EventCall(Contract):
     returns = "Val"
     raises = True
     modifies = ProcessingLoop.modifies
-    properties = ["C03", "C07", "C13"]
+    properties = ["C03", "C04", "C07", "C13"]
 
     def pre(self, s, a):
         f = dict(wf_world(s))
@@ -270,6 +271,7 @@ class EventCall(Contract):
             "C03|outer:drained-in-send-order": z3.Implies(outer, z3.And(
                 qh(s) == qt(s), z3.Not(locked(s)), s.g("ntrig") - n0 == qt(s) - h0,
                 z3.Select(s.g("trig_log"), n0 + t0 - h0) == td, res != W.SENT)),
+            "C04|outer:a-failing-callback-reaches-the-caller": none_swallowed(s0, s, outer),
             "C03|nonrtc:runs-now-returns-own-result": z3.Implies(nonrtc, z3.And(
                 z3.Select(s.g("trig_log"), n0) == td, z3.Select(s.g("trig_res"), n0) == res)),
         }
